@@ -6,6 +6,8 @@ CONSTANTS
   RegionSharesRules = TRUE
   Faults = TRUE
   MaxDamage = 1
-  FullFlagInverted = TRUE
-INVARIANTS TypeOK RecoveredUnderAll NoErrorWhenAllGood
+  FailedLoadKeepsRecord = TRUE
+  RepointKeepsTables = FALSE
+  FullFlagInverted = FALSE
+INVARIANTS TypeOK RecoveredUnderAll NoErrorWhenAllGood RecoveredAfterRepoint
 CHECK_DEADLOCK FALSE
